@@ -17,7 +17,9 @@ Open Scope Z_scope.
 """
 
 TRAILS = [[], [3], [2, 3], [2, 1, 2], [1], [5], [4, 4]]
-OPS = ["add1", "sum0", "reshape_flat", "eq3", "mul_self", "cat_self", "max", "clone", "index0", "bitand"]
+OPS = ["add1", "sum0", "reshape_flat", "eq3", "mul_self", "cat_self", "max", "clone", "index0", "bitand",
+       "narrow_last", "narrow_first_neg", "aten_slice_neg", "aten_slice_first", "slice_last", "select_neg", "flip_last"]
+SLICING = OPS[10:]
 
 
 def prod(l):
@@ -52,6 +54,11 @@ def gen_cases(ck, tier):
                     c["ops"] = rng.sample(OPS, 3 if tier == "quick" else 6)
                     c["dispatch"] = True
                 cases.append(c)
+    # directed: every slicing op on rank-1, rank-2 and rank-3 packed tensors, both bit widths
+    for bits in (2, 4):
+        for shape in ([12], [7], [8, 3], [5, 4], [4, 2, 3]):
+            n = prod(shape)
+            cases.append({"bits": bits, "shape": shape, "data": [(i * 5 + i // 2 + 1) % (2**bits) for i in range(n)], "layout": "contig", "kind": "pos", "ops": list(SLICING), "dispatch": True})
     # byte-level stream: every byte value in every position class, plus random byte tensors
     bytecases = []
     for bits in (2, 4):
